@@ -20,7 +20,7 @@ from .. import common, discrete_corr as dc
 from ..common import Result, Violation, f2h
 
 META = dict(
-    level='Lean theorems over the packed model of tsdate/discrete.py, all grid sizes and all trees: the lower/upper triangular packings are bijections onto [0,G(G+1)/2), reduceat row sums equal the unpacked matrix-vector products, concatenate(row_indices) is the transpose; see design_notes/C10.md for the inside/outside theorems that have landed and for what is still stated as C10_statement. Model tied to the real inside_pass/outside_pass on every intermediate array (Float, both spaces; Rat exact in linear space); public API checked against exhaustive enumeration over all tree shapes up to 5 (thorough 6) leaves.',
+    level='Full: Lean theorems over the packed model of tsdate/discrete.py, for all grid sizes, all single trees (binary and polytomies), all priors/likelihood tables: packings are bijections onto [0,G(G+1)/2), reduceat row sums = unpacked matrix-vector products, concatenate(row_indices) = transpose; the inside pass satisfies the order-free recursion for any child-first order (any probability space); inside_marginal: returned likelihood = exhaustive normaliser; posterior_exact: inside x outside = non-zero multiple of the exhaustive marginal for every non-sample node, standardised or not, without assuming anything about the 0/0 convention (non-negativity argument); posterior_exact_hom transfers both to log space through C12; post-processing (standardize, to_probabilities) normalises when max over columns 1: is non-zero, and a proved counterexample otherwise (known finding: all posterior mass at the first timepoint -> nan). Model tied to the real inside_pass/outside_pass/post-processing on every intermediate array (Float both spaces, Rat exact); public API vs exhaustive enumeration over all tree shapes up to 5 (thorough 6) leaves.',
     note='Lean kernel + {propext, Classical.choice, Quot.sound}; sampled correspondence at Float/Rat with rtol 1e-9; Poisson pmf and prior grid are inputs; exact arithmetic (under/overflow outside)',
     technique='refinement: packed fold model = matrix recursion = brute-force sum (variable elimination by induction) + model/implementation correspondence',
     ref='§3 C10',
@@ -71,6 +71,40 @@ def single_tree_ok(r):
     roots = [u for u in nonfixed if kids.count(u) == 0]
     return len(roots) == 1 and all(kids.count(u) == 1 for u in nonfixed if u != roots[0]) \
         and len(r["roots"]) == 1 and r["roots"][0][0] == roots[0] and all(x == 1.0 for x in r["frac"])
+
+
+def outside_ok(r):
+    """Decidable hypothesis `outsideOK` of posterior_exact, on the real edges_by_child_desc order: every
+    non-fixed child forms one run consisting of a single input edge, every input edge with a non-fixed child
+    has its run, and no parent of a run is the child of that or a later run."""
+    fixed = r["fixed"]
+    runs = []
+    for (i, p, c) in r["order"]:
+        if runs and runs[-1][0] == c:
+            runs[-1][1].append((i, p, c))
+        else:
+            runs.append((c, [(i, p, c)]))
+    keys = [c for c, _ in runs if not fixed[c]]
+    if len(keys) != len(set(keys)):
+        return False
+    edges = set(r["edges"])
+    for k, (c, es) in enumerate(runs):
+        if fixed[c]:
+            continue
+        if len(es) != 1 or es[0] not in edges:
+            return False
+        later = {q for q, _ in runs[k:] if not fixed[q]}
+        if es[0][1] in later:
+            return False
+    have = {es[0] for c, es in runs if not fixed[c]}
+    return all(fixed[c] or (i, p, c) in have for (i, p, c) in r["edges"])
+
+
+def nonneg_ok(r):
+    """non-negativity hypotheses of posterior_exact (linear space): inside rows and likelihood tables"""
+    if r["space"] != dc.LIN:
+        return None
+    return all(np.all(v >= 0) for v in r["inside"].values()) and all(np.all(v >= 0) for v in r["lik"].values())
 
 
 def mut_patterns(rng, n_edges, internal_edge_idx, how_many, max_m):
@@ -125,11 +159,19 @@ def check_case(ts, tp, rows, mu, eps, space, std_out, cache, replay, res, stats,
         stats["degenerate_zero_normaliser"] += 1
         return None
     api = api_case(ts, tp, rows, mu, eps, space, std_out, cache)
+    # finding F-C10-a: some node's exact posterior sits entirely on the first timepoint
+    point_mass = [u for u, m in marg.items() if not np.any(np.asarray(m)[1:] > 0)]
     if not api["ok"]:
         stats["raised"][api["exc"]] = stats["raised"].get(api["exc"], 0) + 1
-        res.violations.append(Violation(f"inside-outside-raised:{api['exc']}",
-                                        f"inside_outside raised {api['exc']}: {api['msg']} on a single tree with positive normaliser",
-                                        replay))
+        if point_mass and api["exc"] == "LibraryError" and "NONFINITE" in api["msg"].upper().replace(" ", "").replace("_", ""):
+            res.violations.append(Violation(
+                "posterior-all-mass-at-first-timepoint",
+                f"inside_outside raised {api['exc']}: {api['msg']}; node(s) {point_mass} have exact posterior [1,0,...,0] "
+                f"(normaliser {Z!r} > 0): standardize() divides by the maximum over columns 1:", replay))
+        else:
+            res.violations.append(Violation(f"inside-outside-raised:{api['exc']}",
+                                            f"inside_outside raised {api['exc']}: {api['msg']} on a single tree with positive normaliser",
+                                            replay))
         return None
     zl = api["lik"] if space == dc.LIN else np.exp(api["lik"])
     if not dc.close(zl, Z, rtol=RTOL):
@@ -187,6 +229,8 @@ def enumerate_inputs(ctx, kmax, n_muts, res, stats):
                 for gname in gnames:
                     tp = GRIDS[gname]
                     kind = str(rng.choice(["flat", "rand", "zero0", "sparse"]))
+                    if k <= 3 and gname == "g3" and muts == pats[0]:
+                        kind = "first"      # all prior mass on the first timepoint (finding F-C10-a)
                     rows = dc.random_prior_rows(rng, ts, len(tp), kind)
                     mu = float(rng.choice([5e-4, 1e-3, 3e-3]))
                     eps = float(rng.choice([1e-8, 1e-2, 0.0, 0.25]))
@@ -252,7 +296,8 @@ def correspondence(recs, res, stats):
             cases.append((r, "rat"))
     outs = dc.run_model(cases)
     same = tot = 0
-    hyp = dict(groups_ok=0, single_tree=0, denoms_nonzero=0, n=0)
+    hyp = dict(groups_ok=0, single_tree=0, denoms_nonzero=0, outside_ok=0, nonneg_ok=0, nonneg_n=0,
+               outside_finite=0, n=0)
     for (r, carrier), m in zip(cases, outs):
         stats["model_runs"][carrier] = stats["model_runs"].get(carrier, 0) + 1
         if carrier == "float":
@@ -261,6 +306,13 @@ def correspondence(recs, res, stats):
             hyp["single_tree"] += int(single_tree_ok(r))
             null = 0.0 if r["space"] == dc.LIN else -np.inf
             hyp["denoms_nonzero"] += int(all(d > null for d in r["denom"].values()))
+            hyp["outside_ok"] += int(outside_ok(r))
+            nn = nonneg_ok(r)
+            if nn is not None:
+                hyp["nonneg_n"] += 1
+                hyp["nonneg_ok"] += int(nn)
+            # standardisers non-zero <=> no nan/+inf produced by the outside pass
+            hyp["outside_finite"] += int(all(np.all(~np.isnan(v)) and not np.any(v == np.inf) for v in r["outside"].values()))
         if m is None:
             res.corr_failures.append(Violation("discrete-model-rejects-input", "Lean driver answered bad-op on an input the implementation accepted",
                                                r["replay"], stage="B"))
